@@ -19,6 +19,9 @@
  * operator and flags the library really dispatched on; a scenario counts as non-trivial only if two compared
  * presentations were dispatched differently (other operator, mask elided, other IS_OPAQUE bits) and the destination
  * changed.
+ * Second space "gradients" (c09_gradients.h): gradient images (linear, radial incl. internally tangent circles a == 0, conical; opaque and
+ * translucent stops; 4 repeats) as source and as mask, each presented as itself and as a pre-rendered a8r8g8b8 REPEAT_NONE copy of exactly the
+ * sampled region (plus an x8r8g8b8 copy when that region is all opaque): checks the gradient branch of compute_image_info's opacity rules.
  */
 #include "vf.h"
 #include "config.h"
@@ -31,6 +34,10 @@ typedef struct {
     volatile uint64_t cell[PIXMAN_N_OPERATORS][4];     /* operator_table cell used: [requested op][src_opaque | dst_opaque<<1] */
     volatile uint64_t reduced, mask_elided, promoted_src, promoted_mask, lookups;
     volatile uint64_t decisions_differ, ref_pixels, ref_cases, outside_explicit, tol_pairs, exact_pairs, skipped_pairs;
+    /* space "gradients" */
+    volatile uint64_t g_cases, g_flagged_opaque, g_tangent, g_partly_outside, g_wholly_outside, g_x8_presented, g_opaque_stops_not_covering,
+                      g_decisions_differ, g_exact_pairs, g_tol_pairs, g_skipped_pairs;
+    uint64_t g_maxdiff[PIXMAN_N_OPERATORS];            /* largest difference seen in a tolerance-compared (gradient, copy) pair, per operator */
 } cov_t;
 static cov_t *cov;
 static struct { int valid; int op; int src_opq, mask_null, mask_opq, dst_opq; } last;
@@ -563,7 +570,7 @@ static void run_scenario(const scen_t *s)
         if (has_border) __atomic_add_fetch(&cov->outside_explicit, 1, __ATOMIC_RELAXED);
         uint64_t h = vf_hash64(b->out, sizeof b->out, (uint64_t)s->op * 3 + (uint64_t)s->role);
         vf_outcome(h);
-        if (vf_want_sample() && dec_differ && changed && s->rq == 5 && (s->op == PIXMAN_OP_OVER || s->op == PIXMAN_OP_ATOP || s->op == PIXMAN_OP_SATURATE || s->op == PIXMAN_OP_IN_REVERSE)) {
+        if (vf_want_sample() && vf->nsamples < 6 /* the rest of the sample quota is left to the gradients space */ && dec_differ && changed && s->rq == 5 && (s->op == PIXMAN_OP_OVER || s->op == PIXMAN_OP_ATOP || s->op == PIXMAN_OP_SATURATE || s->op == PIXMAN_OP_IN_REVERSE)) {
             describe(s, desc, sizeof desc);
             char list[520]; size_t l = 0; list[0] = 0;
             for (int k = 0; k < np && l + 60 < sizeof list; k++) if (role_none_or_conv_ok[k]) l += snprintf(list + l, sizeof list - l, "%s'%s'->%s", l ? ", " : "", P[k].name, P[k].dec_valid ? rc_op_name(P[k].dec_op) : "(empty)");
@@ -574,6 +581,8 @@ static void run_scenario(const scen_t *s)
     for (int k = 0; k < np; k++) cimg_free(&P[k].im);
     cimg_free(&csrc); cimg_free(&cmask); cimg_free(&cdst); free(dst0);
 }
+
+#include "c09_gradients.h"      /* space "gradients": gradient image vs pre-rendered copy */
 
 typedef struct { int dims[9]; const int *cfgs; } ctx_t;
 static void scen_case(uint64_t idx, void *vctx)
@@ -611,15 +620,35 @@ int main(int argc, char **argv)
               "(P3) float pipeline, interpolating filter: interpolated 3x3 constant image vs solid / 1x1 (delivered without interpolation): within 1 step (float rounding of c*w1+..+c*w4). Additionally the 13 exact operators, untransformed, are compared with the "
               "reference equations (rc_exact_pixel), including the alpha channel of the a8r8g8b8 destination presentation. evaluations = scenarios; non-trivial = the destination changed AND "
               "two compared presentations were dispatched differently by the library (other operator after optimize_operator, mask elided, other IS_OPAQUE bits), observed through a link-time "
-              "wrapper of _pixman_implementation_lookup_composite (observation only: the oracle never reads it).";
+              "wrapper of _pixman_implementation_lookup_composite (observation only: the oracle never reads it). "
+              "Space 'gradients': a case is (operator, role in {source, unified-alpha mask}, context images, gradient geometry, stop set, repeat, transform, request rectangle, configuration); the picture is presented as "
+              "the gradient image itself and as an a8r8g8b8 REPEAT_NONE bits image holding a pre-rendered copy of exactly the sampled w x h region (the gradient, same repeat and transform, composited with OP_SRC into a "
+              "zeroed buffer with the same origin; then used with origin 0,0), and additionally as x8r8g8b8 (junk x byte) when that region is entirely opaque; destinations must be equal bit for bit, except "
+              "(G1) float-pipeline operators read the gradient in float but the copy in 8 bits: within 2 steps, and for the source role not compared for COLOR_DODGE, COLOR_BURN and the 4 HSL operators (not Lipschitz); "
+              "(G2) SATURATE between the a8r8g8b8 and x8r8g8b8 copies: 1 step (= P2). The 13 exact operators on 32-bit destinations are also compared with the reference equations applied to the copy's pixels. "
+              "Non-trivial as above (e.g. an opaque-stop repeating gradient is dispatched as OVER->SRC or elided as a mask, its a8r8g8b8 copy is not).";
     vf_assume("C02 (all implementations bit-identical) is checked separately; here 2 (quick) / 5 (thorough) PIXMAN_DISABLE configurations");
     vf_assume("solid fills are created with 16-bit channels = byte * 0x101, i.e. the same colour as the 8-bit pixels");
     vf_assume("solid and 1x1 presentations are paired only with repeating images; solid/1x1/no-mask are not paired under convolution filters (a solid has no filter; outside the statement)");
     vf_assume("HSL operators with a component-alpha mask are undefined (documented as unsupported): those 4 x (mask role, component-alpha content) scenarios are left out");
+    vf_assume("gradients space: the pre-rendered copy is produced by the library itself (OP_SRC, no mask, general path) - trusted to be the gradient's 8-bit rendering (C13 checks that against the geometry); "
+              "the context mask of the source role has no zero pixel, because the 8-bit gradient iterators skip masked-out pixels and the walker's value on a REPEAT_NORMAL/REFLECT period boundary depends by one rounding tie on "
+              "which pixel was fetched before (inside C13's one-step contract, not an opacity matter)");
     vf_assume("component-alpha masks are presented as white (all four channels 1); indexed, wide and sRGB formats are not presentations of this check");
 
     uint64_t N = vf_product(c.dims, 9);
-    vf_space_run("scenarios", N, scen_case, &c);
+    const char *only = getenv("C09_ONLY");                       /* development aid: run one space only (the evidence then says so in the bounds) */
+    if (!only || !strcmp(only, "scenarios")) vf_space_run("scenarios", N, scen_case, &c);
+
+    /* space "gradients" (c09_gradients.h): gradient image vs pre-rendered copy of the sampled region */
+    gctx_t gc;
+    static const int GCFG[] = { PH_CFG_DEFAULT, PH_CFG_GENERAL };
+    gc.cfgs = GCFG;
+    gc.dims[0] = th ? NGRQ_T : NGRQ_Q; gc.dims[1] = th ? NGXF_T : NGXF_Q; gc.dims[2] = 4; gc.dims[3] = th ? NGS_T : NGS_Q; gc.dims[4] = th ? NGD_T : NGD_Q;
+    gc.dims[5] = th ? NGCTX_T : NGCTX_Q; gc.dims[6] = 2; gc.dims[7] = RC_NOPS; gc.dims[8] = 2;
+    uint64_t NG = vf_product(gc.dims, 9);
+    int nkind[3] = { 0, 0, 0 }; for (int i = 0; i < gc.dims[4]; i++) nkind[GD[i].kind]++;
+    if (!only || !strcmp(only, "gradients")) vf_space_run("gradients", NG, gscen_case, &gc);
 
     int cells = 0, cells_possible = 0;
     for (int i = 0; i < RC_NOPS; i++) for (int k = 0; k < 4; k++) { cells_possible++; if (cov->cell[rc_all_ops[i]][k]) cells++; }
@@ -627,15 +656,35 @@ int main(int argc, char **argv)
              "\"dispatch_observed\": {\"lookups\": %llu, \"operator_table_cells_exercised\": \"%d/%d\", \"operator_replaced\": %llu, \"mask_elided\": %llu, "
              "\"source_promoted_to_opaque_by_coverage\": %llu, \"mask_promoted_to_opaque_by_coverage\": %llu, \"scenarios_with_differently_dispatched_presentations\": %llu}, "
              "\"pairs\": {\"bit_exact\": %llu, \"within_tolerance(P1 r5g6b5-in-float 2 steps, P2 SATURATE 1 or 7 steps, P3 float interpolation noise 1 step)\": %llu, \"skipped\": %llu}, "
-             "\"repeat_none_scenarios_checked_against_explicit_transparent_border\": %llu, \"reference_equation_scenarios\": %llu, \"reference_equation_pixels\": %llu",
+             "\"repeat_none_scenarios_checked_against_explicit_transparent_border\": %llu, \"reference_equation_scenarios\": %llu, \"reference_equation_pixels\": %llu, "
+             "\"gradients\": {\"cases\": %llu, \"gradient_flagged_IS_OPAQUE\": %llu, \"internally_tangent_radial(a==0)\": %llu, \"request_partly_outside_the_gradient\": %llu, "
+             "\"request_wholly_outside\": %llu, \"opaque_stops_repeating_but_request_reaches_transparent_pixels\": %llu, \"x8r8g8b8_copy_also_presented\": %llu, "
+             "\"cases_with_differently_dispatched_presentations\": %llu, \"pairs_bit_exact\": %llu, \"pairs_within_tolerance(G1 float gradient vs 8-bit copy 2 steps, G2 SATURATE 1 step)\": %llu, "
+             "\"pairs_skipped(G1: source role, HSL x4 + COLOR_DODGE + COLOR_BURN, gradient-vs-copy)\": %llu}",
              (unsigned long long)cov->lookups, cells, cells_possible, (unsigned long long)cov->reduced, (unsigned long long)cov->mask_elided, (unsigned long long)cov->promoted_src,
              (unsigned long long)cov->promoted_mask, (unsigned long long)cov->decisions_differ, (unsigned long long)cov->exact_pairs, (unsigned long long)cov->tol_pairs,
-             (unsigned long long)cov->skipped_pairs, (unsigned long long)cov->outside_explicit, (unsigned long long)cov->ref_cases, (unsigned long long)cov->ref_pixels);
-    static char bounds[700];
+             (unsigned long long)cov->skipped_pairs, (unsigned long long)cov->outside_explicit, (unsigned long long)cov->ref_cases, (unsigned long long)cov->ref_pixels,
+             (unsigned long long)cov->g_cases, (unsigned long long)cov->g_flagged_opaque, (unsigned long long)cov->g_tangent, (unsigned long long)cov->g_partly_outside,
+             (unsigned long long)cov->g_wholly_outside, (unsigned long long)cov->g_opaque_stops_not_covering, (unsigned long long)cov->g_x8_presented,
+             (unsigned long long)cov->g_decisions_differ, (unsigned long long)cov->g_exact_pairs, (unsigned long long)cov->g_tol_pairs, (unsigned long long)cov->g_skipped_pairs);
+    {
+        size_t l = strlen(vf->extra_json);
+        l += snprintf(vf->extra_json + l, sizeof vf->extra_json - l, ", \"gradients_largest_difference_seen_in_G1_pairs(steps)\": \"");
+        for (int i = 0; i < RC_NOPS && l + 60 < sizeof vf->extra_json; i++) if (needs_division(rc_all_ops[i]))
+            l += snprintf(vf->extra_json + l, sizeof vf->extra_json - l, "%s=%llu ", rc_op_name(rc_all_ops[i]), (unsigned long long)cov->g_maxdiff[rc_all_ops[i]]);
+        snprintf(vf->extra_json + l, sizeof vf->extra_json - l, "\"");
+    }
+    static char bounds[1600];
     snprintf(bounds, sizeof bounds, "53 operators x 3 roles x 2 contents (3x3 of nine 565-representable opaque colours | constant; masks: unified | component-alpha white) x %d context image sets "
              "(translucent / opaque / r5g6b5 / a8 partners, with and without masks) x %d transforms x 4 repeats x %d filters x %d request rectangles (inside, bilinear-covered, nearest-covered only, "
-             "partly and wholly outside the 3x3 source, up to 20 pixels wide) x %d configurations = %llu scenarios, up to 11 presentations each; destination 21x8",
-             c.dims[4], c.dims[3], c.dims[1], c.dims[0], ncfg, (unsigned long long)N);
+             "partly and wholly outside the 3x3 source, up to 20 pixels wide) x %d configurations = %llu scenarios, up to 11 presentations each; destination 21x8. "
+             "Space 'gradients': 53 operators x 2 roles (source, unified-alpha mask) x %d context image sets (a8r8g8b8 / x8r8g8b8 / r5g6b5%s destinations; with and without a8 or solid mask; solid, "
+             "opaque and translucent 3x3 sources) x %d gradients (%d linear, %d radial: a<0, a==0 internally tangent, a>0 disjoint / overlapping / equal circles; %d conical) x %d stop sets "
+             "(all opaque | one translucent stop) x 4 repeats x %d transforms x %d request rectangles (up to 20x7, reaching outside the cone resp. outside [0,1]) x 2 configurations "
+             "(default, general path only) = %llu cases, 2-3 presentations each%s",
+             c.dims[4], c.dims[3], c.dims[1], c.dims[0], ncfg, (unsigned long long)N,
+             gc.dims[5], th ? " / a8" : "", gc.dims[4], nkind[GK_LINEAR], nkind[GK_RADIAL], nkind[GK_CONICAL], gc.dims[3], gc.dims[1], gc.dims[0], (unsigned long long)NG,
+             only ? " [C09_ONLY set: only one space was run]" : "");
     vf_bounds = bounds;
     if (!vf_replaying()) printf("C09 coverage: %s\n", vf->extra_json);
     return vf_finish();
